@@ -1,6 +1,7 @@
 (* Lemmas for C18: the bit trick of align_to, struct_layout against the System V rules,
    checked arithmetic refines wrapping arithmetic, partial correctness of compute_layouts,
    Kahn's algorithm (soundness, completeness), diagnosis of by-value recursion. *)
+From Coq Require Import Permutation.
 From Aelys Require Import Base.Tactics Extracted.LayoutTable Model.Layout Model.SysV.
 Local Open Scope N_scope.
 
@@ -571,3 +572,728 @@ Lemma doubling_witness_facts :
        (fun r => Ok (nth_error (fst r) 0, rlookup (snd r) 28, rlookup (snd r) 29))
   = Ok (Some (Some [0; 0]), Some (2147483648, 8), Some (0, 8)).
 Proof. split; vm_compute; reflexivity. Qed.
+
+(* ------------------------------------------------------------------ part k *)
+Local Open Scope nat_scope.
+(* ---- small list facts *)
+Lemma natmem_In x l : natmem x l = true <-> In x l.
+Proof.
+  induction l as [|y l IH]; cbn; [split; [discriminate|tauto]|].
+  rewrite orb_true_iff, IH, Nat.eqb_eq. split; intros [H|H]; auto.
+Qed.
+Lemma natmem_false x l : natmem x l = false <-> ~ In x l.
+Proof. rewrite <- natmem_In. destruct (natmem x l); split; congruence. Qed.
+
+Lemma nmem_In x l : nmem x l = true <-> In x l.
+Proof.
+  induction l as [|y l IH]; cbn; [split; [discriminate|tauto]|].
+  rewrite orb_true_iff, IH, N.eqb_eq. split; intros [H|H]; auto.
+Qed.
+
+Lemma ndedup_In x l : In x (ndedup l) <-> In x l.
+Proof.
+  induction l as [|y l IH]; cbn; [tauto|].
+  destruct (nmem y l) eqn:M.
+  - rewrite IH. split; [auto|]. intros [<-|H]; [apply nmem_In; exact M|exact H].
+  - cbn. rewrite IH. tauto.
+Qed.
+Lemma ndedup_NoDup l : NoDup (ndedup l).
+Proof.
+  induction l as [|y l IH]; cbn; [constructor|].
+  destruct (nmem y l) eqn:M; [exact IH|]. constructor; [|exact IH].
+  rewrite ndedup_In. rewrite <- nmem_In. congruence.
+Qed.
+
+Lemma omap_In {A B} (f : A -> option B) l y : In y (omap f l) <-> exists x, In x l /\ f x = Some y.
+Proof.
+  induction l as [|a l IH]; cbn; [split; [tauto|intros [x [[] _]]]|].
+  destruct (f a) as [b|] eqn:F.
+  - cbn. rewrite IH. split.
+    + intros [<-|[x [H1 H2]]]; [exists a; auto|exists x; auto].
+    + intros [x [[<-|H1] H2]]; [left; congruence|right; exists x; auto].
+  - rewrite IH. split; intros [x [H1 H2]]; [exists x; auto|].
+    destruct H1 as [<-|H1]; [congruence|exists x; auto].
+Qed.
+
+Lemma omap_NoDup {A B} (f : A -> option B) l :
+  (forall x x' y, In x l -> In x' l -> f x = Some y -> f x' = Some y -> x = x') ->
+  NoDup l -> NoDup (omap f l).
+Proof.
+  intros Inj ND. induction ND as [|a l Hn ND IH]; cbn; [constructor|].
+  assert (IH' : NoDup (omap f l)) by (apply IH; intros; eapply Inj; eauto; right; auto).
+  destruct (f a) as [b|] eqn:F; [|exact IH'].
+  constructor; [|exact IH']. rewrite omap_In. intros [x [H1 H2]].
+  apply Hn. rewrite (Inj a x b); auto; [left; auto|right; auto].
+Qed.
+
+(* ---- name -> index *)
+Lemma idx_from_spec E nm : forall i acc j, idx_from E nm i acc = Some j ->
+  (acc = Some j) \/ (i <= j /\ exists d, nth_error E (j - i) = Some d /\ sname d = nm).
+Proof.
+  induction E as [|d E IH]; intros i acc j H; cbn in H; [auto|].
+  apply IH in H as [H|[L [d' [H1 H2]]]].
+  - destruct (N.eqb_spec (sname d) nm) as [Eq|Ne]; [|auto].
+    inversion H; subst. right. split; [lia|]. exists d. rewrite Nat.sub_diag. auto.
+  - right. split; [lia|]. exists d'. replace (j - i) with (S (j - S i)) by lia. auto.
+Qed.
+Lemma idx_of_spec E nm j : idx_of E nm = Some j -> exists d, nth_error E j = Some d /\ sname d = nm.
+Proof.
+  unfold idx_of. intro H. apply idx_from_spec in H as [H|[_ [d [H1 H2]]]]; [discriminate|].
+  rewrite Nat.sub_0_r in H1. eauto.
+Qed.
+Lemma idx_from_some E nm : forall i acc, acc <> None -> idx_from E nm i acc <> None.
+Proof.
+  induction E as [|d E IH]; intros i acc H; cbn; [exact H|]. apply IH.
+  destruct (sname d =? nm)%N; [discriminate|exact H].
+Qed.
+Lemma idx_from_defined E nm : forall i acc, In nm (map sname E) -> idx_from E nm i acc <> None.
+Proof.
+  induction E as [|d E IH]; intros i acc H; [destruct H|].
+  cbn. destruct H as [H|H].
+  - rewrite H, N.eqb_refl. apply idx_from_some. discriminate.
+  - apply IH. exact H.
+Qed.
+Lemma idx_of_defined E nm : In nm (map sname E) -> idx_of E nm <> None.
+Proof. apply idx_from_defined. Qed.
+
+(* ------------------------------------------------------------------ part k2 *)
+Local Open Scope nat_scope.
+Section Kahn.
+Variable E : list sdef.
+Let n := length E.
+Definition deps (i : nat) : list nat :=
+  match nth_error E i with Some d => dep_idxs E d | None => [] end.
+
+Lemma dep_names_NoDup d : NoDup (dep_names d).
+Proof. unfold dep_names. apply NoDup_filter. apply ndedup_NoDup. Qed.
+
+Lemma deps_NoDup i : NoDup (deps i).
+Proof.
+  unfold deps. destruct (nth_error E i) as [d|]; [|constructor].
+  unfold dep_idxs. apply omap_NoDup; [|apply dep_names_NoDup].
+  intros x x' y _ _ H H'. apply idx_of_spec in H as [d1 [A1 A2]]. apply idx_of_spec in H' as [d2 [B1 B2]].
+  congruence.
+Qed.
+
+Lemma deps_lt i j : In j (deps i) -> j < n.
+Proof.
+  unfold deps. destruct (nth_error E i) as [d|]; [|intros []].
+  unfold dep_idxs. rewrite omap_In. intros [nm [_ H]]. apply idx_of_spec in H as [d' [H _]].
+  apply nth_error_Some. congruence.
+Qed.
+
+Lemma deps_irrefl i : ~ In i (deps i).
+Proof.
+  unfold deps. destruct (nth_error E i) as [d|] eqn:Ed; [|intros []].
+  unfold dep_idxs. rewrite omap_In. intros [nm [H1 H2]]. apply idx_of_spec in H2 as [d' [A1 A2]].
+  unfold dep_names in H1. apply filter_In in H1 as [_ H1]. rewrite Ed in A1. inversion A1; subst.
+  rewrite N.eqb_refl in H1. discriminate.
+Qed.
+
+Lemma dependents_In v i : In i (dependents E v) <-> i < n /\ In v (deps i).
+Proof.
+  unfold dependents. rewrite filter_In, in_seq. unfold deps. fold n.
+  destruct (nth_error E i) as [d|] eqn:Ed.
+  - rewrite natmem_In. split; intros [A B]; split; auto; lia.
+  - split; [intros [_ H]; discriminate|intros [_ []]].
+Qed.
+Lemma dependents_NoDup v : NoDup (dependents E v).
+Proof. unfold dependents. apply NoDup_filter. apply seq_NoDup. Qed.
+
+(* number of dependencies of i not yet emitted *)
+Definition cnt (i : nat) (out : list nat) : nat :=
+  length (filter (fun d => negb (natmem d out)) (deps i)).
+
+Lemma natmem_cons x y l : natmem x (y :: l) = Nat.eqb x y || natmem x l.
+Proof. reflexivity. Qed.
+Lemma cnt_cons_gen l v out : NoDup l -> ~ In v out ->
+  length (filter (fun d => negb (natmem d out)) l) =
+  length (filter (fun d => negb (natmem d (v :: out))) l) + (if natmem v l then 1 else 0).
+Proof.
+  intros ND Hv. induction ND as [|x l Hx ND IH]; [reflexivity|].
+  cbn [filter]. rewrite !natmem_cons. destruct (Nat.eqb_spec x v) as [->|Ne].
+  - apply natmem_false in Hv. apply natmem_false in Hx. rewrite Nat.eqb_refl, Hv. rewrite Hx in IH.
+    cbn [negb orb length]. rewrite IH. lia.
+  - replace (Nat.eqb v x) with false by (symmetry; apply Nat.eqb_neq; auto). cbn [orb].
+    destruct (natmem x out); cbn [negb length]; rewrite IH; lia.
+Qed.
+Lemma cnt_cons i v out : ~ In v out ->
+  cnt i out = cnt i (v :: out) + (if natmem v (deps i) then 1 else 0).
+Proof. intro H. apply cnt_cons_gen; [apply deps_NoDup|exact H]. Qed.
+
+Lemma cnt_zero i out : cnt i out = 0 <-> forall d, In d (deps i) -> In d out.
+Proof.
+  unfold cnt. generalize (deps i) as l. induction l as [|x l IH]; cbn [filter]; [cbn; split; [intros _ d []|auto]|].
+  destruct (natmem x out) eqn:M; cbn [negb].
+  - rewrite IH. apply natmem_In in M. split; intros H d; [intros [<-|Hd]; auto|intro Hd; apply H; right; auto].
+  - cbn [length]. split; [discriminate|]. intro H. exfalso. apply natmem_false in M. apply M. apply H. left. auto.
+Qed.
+
+Lemma cnt_nil i : cnt i [] = length (deps i).
+Proof. unfold cnt. generalize (deps i) as l. induction l; cbn; auto. Qed.
+
+Fixpoint topo (out : list nat) : Prop :=
+  match out with
+  | [] => True
+  | v :: r => (forall d, In d (deps v) -> In d r) /\ topo r
+  end.
+
+Lemma topo_closed out : topo out -> forall v d, In v out -> In d (deps v) -> In d out.
+Proof.
+  induction out as [|x r IH]; intros T v d Hv Hd; [destruct Hv|].
+  destruct T as [T1 T2]. destruct Hv as [->|Hv]; [right; auto|right; eapply IH; eauto].
+Qed.
+
+(* dec_nth *)
+Lemma dec_nth_length l i : length (dec_nth l i) = length l.
+Proof. revert i. induction l as [|x l IH]; intros [|i]; cbn; auto. Qed.
+Lemma nth_dec_nth l i j : i < length l ->
+  nth j (dec_nth l i) 1 = if Nat.eqb j i then Nat.pred (nth i l 1) else nth j l 1.
+Proof.
+  revert i j. induction l as [|x l IH]; intros i j H; [cbn in H; lia|].
+  destruct i as [|i]; destruct j as [|j]; cbn; auto. apply IH. cbn in H. lia.
+Qed.
+
+(* invariant while relaxing the dependents ds of the node just emitted (out' already has it) *)
+Definition eff (ds : list nat) (out : list nat) (i : nat) : nat :=
+  cnt i out + (if natmem i ds then 1 else 0).
+Record RInv (ds indeg stack out : list nat) : Prop := {
+  r_len : length indeg = n;
+  r_deg : forall i, i < n -> nth i indeg 1 = eff ds out i;
+  r_stk : forall i, i < n -> (In i stack <-> (eff ds out i = 0 /\ ~ In i out));
+  r_nd : NoDup stack;
+  r_lt : forall i, In i stack -> i < n }.
+
+Lemma relax_inv out ds : NoDup ds -> (forall d, In d ds -> d < n /\ ~ In d out) ->
+  forall indeg stack, RInv ds indeg stack out ->
+  RInv [] (fst (relax ds indeg stack)) (snd (relax ds indeg stack)) out.
+Proof.
+  intros ND. induction ND as [|d ds Hd ND IH]; intros Hds indeg stack R; [exact R|].
+  destruct (Hds d (or_introl eq_refl)) as [Dn Dout].
+  cbn [relax].
+  assert (Ld : d < length indeg) by (rewrite (r_len _ _ _ _ R); exact Dn).
+  assert (Nd : nth d (dec_nth indeg d) 1 = cnt d out).
+  { rewrite nth_dec_nth by exact Ld. rewrite Nat.eqb_refl. rewrite (r_deg _ _ _ _ R d Dn).
+    unfold eff. cbn [natmem]. rewrite Nat.eqb_refl. cbn [orb]. lia. }
+  assert (Eff : forall i, i <> d -> eff (d :: ds) out i = eff ds out i).
+  { intros i Hi. unfold eff. cbn [natmem]. replace (Nat.eqb i d) with false by (symmetry; apply Nat.eqb_neq; auto). reflexivity. }
+  assert (Effd : eff ds out d = cnt d out).
+  { unfold eff. apply natmem_false in Hd. rewrite Hd. lia. }
+  assert (Deg' : forall i, i < n -> nth i (dec_nth indeg d) 1 = eff ds out i).
+  { intros i Hi. destruct (Nat.eq_dec i d) as [->|Ne]; [rewrite Nd, Effd; reflexivity|].
+    rewrite nth_dec_nth by exact Ld. replace (Nat.eqb i d) with false by (symmetry; apply Nat.eqb_neq; auto).
+    rewrite (r_deg _ _ _ _ R i Hi). apply Eff. exact Ne. }
+  assert (Dnot : ~ In d stack).
+  { intro H. apply (r_stk _ _ _ _ R d Dn) in H as [H _]. unfold eff in H. cbn [natmem] in H.
+    rewrite Nat.eqb_refl in H. cbn in H. lia. }
+  rewrite Nd. destruct (Nat.eqb (cnt d out) 0) eqn:Z.
+  - apply Nat.eqb_eq in Z. apply IH; [intros; apply Hds; right; auto|].
+    constructor.
+    + rewrite dec_nth_length. apply (r_len _ _ _ _ R).
+    + exact Deg'.
+    + intros i Hi. destruct (Nat.eq_dec i d) as [->|Ne].
+      * rewrite Effd. split; [auto|]. intros _. left. reflexivity.
+      * rewrite <- (Eff i Ne). rewrite <- (r_stk _ _ _ _ R i Hi). cbn. split; [intros [H|H]; [congruence|auto]|auto].
+    + constructor; [exact Dnot|apply (r_nd _ _ _ _ R)].
+    + intros i [<-|H]; [exact Dn|apply (r_lt _ _ _ _ R); exact H].
+  - apply Nat.eqb_neq in Z. apply IH; [intros; apply Hds; right; auto|].
+    constructor.
+    + rewrite dec_nth_length. apply (r_len _ _ _ _ R).
+    + exact Deg'.
+    + intros i Hi. destruct (Nat.eq_dec i d) as [->|Ne].
+      * rewrite Effd. split; [intro H; contradiction|intros [H _]; contradiction].
+      * rewrite <- (Eff i Ne). apply (r_stk _ _ _ _ R i Hi).
+    + apply (r_nd _ _ _ _ R).
+    + apply (r_lt _ _ _ _ R).
+Qed.
+
+(* loop invariant of kahn *)
+Record KInv (indeg stack out : list nat) : Prop := {
+  k_r : RInv [] indeg stack out;
+  k_nd : NoDup out;
+  k_lt : forall i, In i out -> i < n;
+  k_topo : topo out }.
+
+Lemma kinv_step indeg v st out : KInv indeg (v :: st) out ->
+  KInv (fst (relax (dependents E v) indeg st)) (snd (relax (dependents E v) indeg st)) (v :: out).
+Proof.
+  intros [R ND LT T].
+  assert (Vn : v < n) by (apply (r_lt _ _ _ _ R); left; auto).
+  assert (Vs : eff [] out v = 0 /\ ~ In v out) by (apply (r_stk _ _ _ _ R v Vn); left; auto).
+  destruct Vs as [Vc Vout]. unfold eff in Vc. cbn in Vc. rewrite Nat.add_0_r in Vc.
+  assert (Vst : ~ In v st) by (pose proof (r_nd _ _ _ _ R) as X; inversion X; auto).
+  assert (Cn : forall i, cnt i out = eff (dependents E v) (v :: out) i \/ ~ i < n).
+  { intro i. destruct (Nat.lt_ge_cases i n) as [Hi|Hi]; [left|right; lia].
+    unfold eff. rewrite (cnt_cons i v out Vout). f_equal.
+    destruct (natmem v (deps i)) eqn:M1; destruct (natmem i (dependents E v)) eqn:M2; auto.
+    - apply natmem_In in M1. apply natmem_false in M2. exfalso. apply M2. apply dependents_In. auto.
+    - apply natmem_false in M1. apply natmem_In in M2. apply dependents_In in M2. tauto. }
+  constructor.
+  - apply relax_inv.
+    + apply dependents_NoDup.
+    + intros d Hd. apply dependents_In in Hd as [Dn Dv]. split; [exact Dn|].
+      intros [<-|Hin]; [exact (deps_irrefl v Dv)|].
+      apply Vout. eapply topo_closed; eauto.
+    + constructor.
+      * apply (r_len _ _ _ _ R).
+      * intros i Hi. rewrite (r_deg _ _ _ _ R i Hi). unfold eff at 1. cbn [natmem]. rewrite Nat.add_0_r.
+        destruct (Cn i); [assumption|contradiction].
+      * intros i Hi. destruct (Cn i) as [C|C]; [|contradiction]. rewrite <- C.
+        pose proof (r_stk _ _ _ _ R i Hi) as S. unfold eff in S. cbn [natmem] in S. rewrite Nat.add_0_r in S.
+        split.
+        -- intro H. assert (H' : In i (v :: st)) by (right; exact H). apply S in H' as [H1 H2].
+           split; [exact H1|]. intros [<-|H3]; [contradiction|contradiction].
+        -- intros [H1 H2]. assert (H' : In i (v :: st)).
+           { apply S. split; [exact H1|]. intro. apply H2. right. auto. }
+           destruct H' as [<-|H']; [exfalso; apply H2; left; auto|exact H'].
+      * pose proof (r_nd _ _ _ _ R) as X. inversion X; auto.
+      * intros i H. apply (r_lt _ _ _ _ R). right. exact H.
+  - constructor; assumption.
+  - intros i [<-|H]; auto.
+  - split; [|exact T]. apply cnt_zero. exact Vc.
+Qed.
+
+Lemma nodup_bound l : NoDup l -> (forall i, In i l -> i < n) -> length l <= n.
+Proof.
+  intros ND H. rewrite <- (seq_length n 0). apply NoDup_incl_length; [exact ND|].
+  intros i Hi. apply in_seq. specialize (H i Hi). lia.
+Qed.
+
+Lemma kahn_total : forall fuel indeg stack out, KInv indeg stack out -> n < fuel + length out ->
+  exists indeg' out', kahn E fuel indeg stack out = Some out' /\ KInv indeg' [] out'.
+Proof.
+  induction fuel as [|f IH]; intros indeg stack out K F.
+  - destruct stack as [|v st]; [exists indeg, out; split; [reflexivity|exact K]|].
+    exfalso. pose proof (kinv_step _ _ _ _ K) as K'.
+    pose proof (nodup_bound _ (k_nd _ _ _ K') (k_lt _ _ _ K')) as B. cbn in B. cbn in F. lia.
+  - destruct stack as [|v st]; [exists indeg, out; split; [reflexivity|exact K]|].
+    cbn [kahn]. pose proof (kinv_step _ _ _ _ K) as K'.
+    destruct (relax (dependents E v) indeg st) as [indeg' st'] eqn:RX. cbn [fst snd] in K'.
+    apply (IH _ _ _ K'). cbn [length]. lia.
+Qed.
+
+Lemma nth_in_degree0 i : i < n -> nth i (in_degree0 E) 1 = length (deps i).
+Proof.
+  intro Hi. unfold in_degree0, deps.
+  destruct (nth_error E i) as [d|] eqn:Ed; [|apply nth_error_None in Ed; fold n in Ed; lia].
+  apply nth_error_nth. exact (map_nth_error (fun d => length (dep_idxs E d)) i E Ed).
+Qed.
+
+Lemma kinv_init : KInv (in_degree0 E) (init_stack (in_degree0 E)) [].
+Proof.
+  assert (L : length (in_degree0 E) = n) by (unfold in_degree0; apply map_length).
+  constructor; [constructor| constructor | intros i [] | exact I].
+  - exact L.
+  - intros i Hi. unfold eff. cbn [natmem]. rewrite cnt_nil, Nat.add_0_r. apply nth_in_degree0. exact Hi.
+  - intros i Hi. unfold init_stack. rewrite <- in_rev, filter_In, in_seq, L.
+    unfold eff. cbn [natmem]. rewrite cnt_nil, Nat.add_0_r, Nat.eqb_eq, nth_in_degree0 by exact Hi.
+    split; [intros [_ H]; split; [exact H|intros []]|intros [H _]; split; [lia|exact H]].
+  - unfold init_stack. apply NoDup_rev. apply NoDup_filter. apply seq_NoDup.
+  - intros i. unfold init_stack. rewrite <- in_rev, filter_In, in_seq, L. lia.
+Qed.
+
+(* the final state: nothing emitted depends on something that is not, and nothing is ready *)
+Record KFinal (out : list nat) : Prop := {
+  f_nd : NoDup out;
+  f_lt : forall i, In i out -> i < n;
+  f_topo : topo out;
+  f_stuck : forall i, i < n -> ~ In i out -> exists d, In d (deps i) /\ ~ In d out }.
+
+Lemma kahn_final : exists out, kahn E (S n) (in_degree0 E) (init_stack (in_degree0 E)) [] = Some out /\ KFinal out.
+Proof.
+  destruct (kahn_total (S n) _ _ _ kinv_init) as [indeg' [out [H K]]]; [cbn; lia|].
+  exists out. split; [exact H|]. destruct K as [R ND LT T]. constructor; auto.
+  intros i Hi Hout. destruct (Nat.eq_dec (cnt i out) 0) as [Z|NZ].
+  - exfalso. assert (X : In i []) by (apply (r_stk _ _ _ _ R i Hi); unfold eff; cbn [natmem]; split; [lia|exact Hout]).
+    destruct X.
+  - unfold cnt in NZ. destruct (filter (fun d => negb (natmem d out)) (deps i)) as [|d l] eqn:Fl; [cbn in NZ; lia|].
+    assert (Hd : In d (filter (fun d => negb (natmem d out)) (deps i))) by (rewrite Fl; left; auto).
+    apply filter_In in Hd as [H1 H2]. exists d. split; [exact H1|]. apply natmem_false.
+    destruct (natmem d out); [discriminate|reflexivity].
+Qed.
+End Kahn.
+
+(* ------------------------------------------------------------------ part k4 *)
+Local Open Scope nat_scope.
+Lemma topological_order_cases E :
+  exists out, KFinal E out /\
+    ((length out = length E /\ topological_order E = Ok (rev out)) \/
+     (length out <> length E /\ topological_order E = Fail ECycle)).
+Proof.
+  destruct (kahn_final E) as [out [H F]]. exists out. split; [exact F|].
+  unfold topological_order. rewrite H. destruct (Nat.eqb_spec (length out) (length E)); auto.
+Qed.
+
+Lemma kfinal_full E out : KFinal E out -> length out = length E -> forall i, i < length E -> In i out.
+Proof.
+  intros F L i Hi.
+  assert (Inc : incl (seq 0 (length E)) out).
+  { apply NoDup_length_incl; [apply (f_nd _ _ F)| rewrite seq_length; lia |].
+    intros j Hj. apply in_seq. pose proof (f_lt _ _ F j Hj). lia. }
+  apply Inc. apply in_seq. lia.
+Qed.
+
+(* ---- a set of structs each of which contains another member by value is never emitted *)
+Lemma topo_avoids E (C : nat -> Prop) : (forall i, C i -> exists j, In j (deps E i) /\ C j) ->
+  forall out, topo E out -> forall v, C v -> ~ In v out.
+Proof.
+  intros HC. induction out as [|x r IH]; intros T v Cv Hin; [destruct Hin|].
+  destruct T as [T1 T2]. destruct Hin as [->|Hin]; [|exact (IH T2 v Cv Hin)].
+  destruct (HC v Cv) as [j [J1 J2]]. exact (IH T2 j J2 (T1 j J1)).
+Qed.
+
+Lemma cycle_order E (C : nat -> Prop) i0 : C i0 -> i0 < length E ->
+  (forall i, C i -> exists j, In j (deps E i) /\ C j) ->
+  topological_order E = Fail ECycle.
+Proof.
+  intros C0 L0 HC. destruct (topological_order_cases E) as [out [F [[L _]|[_ H]]]]; [|exact H].
+  exfalso. apply (topo_avoids E C HC out (f_topo _ _ F) i0 C0). apply (kfinal_full E out F L). exact L0.
+Qed.
+
+Lemma refs_by_value_dep t nm : refs_by_value t nm = true <-> field_dep t = Some nm.
+Proof.
+  induction t; cbn; try (split; discriminate); auto.
+  rewrite N.eqb_eq. split; congruence.
+Qed.
+
+Lemma no_self_ref E : has_self_ref E = false -> forall d t, In d E -> In t (sfields d) -> field_dep t <> Some (sname d).
+Proof.
+  intros H d t Hd Ht Hf. apply refs_by_value_dep in Hf.
+  assert (X : has_self_ref E = true); [|congruence].
+  unfold has_self_ref. apply existsb_exists. exists d. split; [exact Hd|].
+  unfold self_ref. apply existsb_exists. exists t. auto.
+Qed.
+
+(* a by-value dependency on a defined name, other than the own name, is an edge of the graph *)
+Lemma dep_edge E i d t nm : nth_error E i = Some d -> In t (sfields d) -> field_dep t = Some nm ->
+  nm <> sname d -> In nm (map sname E) ->
+  exists j d', idx_of E nm = Some j /\ In j (deps E i) /\ nth_error E j = Some d' /\ sname d' = nm.
+Proof.
+  intros Ed Ht Hf Hne Hdef. destruct (idx_of E nm) as [j|] eqn:Ij; [|exfalso; exact (idx_of_defined E nm Hdef Ij)].
+  destruct (idx_of_spec E nm j Ij) as [d' [A1 A2]]. exists j, d'. repeat split; auto.
+  unfold deps. rewrite Ed. unfold dep_idxs. apply omap_In. exists nm. split; [|exact Ij].
+  unfold dep_names. apply filter_In. split.
+  - apply ndedup_In. apply omap_In. exists t. auto.
+  - apply negb_true_iff. apply N.eqb_neq. exact Hne.
+Qed.
+
+Lemma cycle_diagnosed_lemma chk E : NoDup (map sname E) -> byvalue_cycle E ->
+  compute_layouts chk E = Fail ESelfRef \/ compute_layouts chk E = Fail ECycle.
+Proof.
+  intros ND [C [[nm0 C0] HC]]. unfold compute_layouts.
+  destruct (has_self_ref E) eqn:SR; [left; reflexivity|right].
+  pose proof (no_self_ref E SR) as NS.
+  set (C' := fun i => exists d, nth_error E i = Some d /\ C (sname d)).
+  assert (Step : forall i, C' i -> exists j, In j (deps E i) /\ C' j).
+  { intros i [d [Ed Cd]]. destruct (HC _ Cd) as [d0 [t [nm' [D1 [D2 [D3 [D4 D5]]]]]]].
+    assert (d0 = d).
+    { apply In_nth_error in D1 as [k Ek]. assert (k = i); [|congruence].
+      apply (proj1 (NoDup_nth_error (map sname E)) ND).
+      - rewrite map_length. apply nth_error_Some. congruence.
+      - rewrite (map_nth_error sname k E Ek), (map_nth_error sname i E Ed). congruence. }
+    subst d0. destruct (HC _ D5) as [d1 [_ [_ [E1 [E2 _]]]]].
+    assert (Def : In nm' (map sname E)) by (rewrite <- E2; apply in_map; exact E1).
+    assert (Ne : nm' <> sname d) by (intro X; apply (NS d t (nth_error_In _ _ Ed) D3); congruence).
+    destruct (dep_edge E i d t nm' Ed D3 D4 Ne Def) as [j [d' [_ [J1 [J2 J3]]]]].
+    exists j. split; [exact J1|]. exists d'. split; [exact J2|]. rewrite J3. exact D5. }
+  destruct (HC _ C0) as [d [_ [_ [D1 [D2 _]]]]]. apply In_nth_error in D1 as [i0 Ei].
+  rewrite (cycle_order E C' i0); [reflexivity| exists d; split; [exact Ei|rewrite D2; exact C0] | apply nth_error_Some; congruence | exact Step].
+Qed.
+
+(* ------------------------------------------------------------------ part k5 *)
+Local Open Scope nat_scope.
+Lemma wf_no_self_ref E : wf_env E -> has_self_ref E = false.
+Proof.
+  intros [_ _ [rank R]]. destruct (has_self_ref E) eqn:H; [|reflexivity]. exfalso.
+  unfold has_self_ref in H. apply existsb_exists in H as [d [Hd H]].
+  unfold self_ref in H. apply existsb_exists in H as [t [Ht H]]. apply refs_by_value_dep in H.
+  specialize (R d t _ Hd Ht H). lia.
+Qed.
+
+(* every edge of the graph goes down in rank *)
+Lemma deps_rank E (rank : N -> nat) :
+  (forall d t nm, In d E -> In t (sfields d) -> field_dep t = Some nm -> rank nm < rank (sname d)) ->
+  forall i j d d', nth_error E i = Some d -> nth_error E j = Some d' -> In j (deps E i) -> rank (sname d') < rank (sname d).
+Proof.
+  intros R i j d d' Ed Ed' H. unfold deps in H. rewrite Ed in H. unfold dep_idxs in H.
+  apply (proj1 (omap_In _ _ _)) in H as [nm [H1 H2]]. apply idx_of_spec in H2 as [d2 [A1 A2]].
+  unfold dep_names in H1. apply filter_In in H1 as [H1 _]. apply (proj1 (ndedup_In _ _)) in H1. apply (proj1 (omap_In _ _ _)) in H1 as [t [T1 T2]].
+  assert (d2 = d') by congruence. subst d2. rewrite A2. eapply R; eauto. eapply nth_error_In; eauto.
+Qed.
+
+Lemma wf_order E : wf_env E -> exists out, KFinal E out /\ topological_order E = Ok (rev out)
+  /\ forall i, i < length E -> In i out.
+Proof.
+  intros W. destruct (wf_acyclic _ W) as [rank R].
+  destruct (topological_order_cases E) as [out [F Cs]].
+  assert (All : forall r i d, nth_error E i = Some d -> rank (sname d) < r -> In i out).
+  { induction r as [|r IH]; intros i d Ed Hr; [lia|].
+    destruct (in_dec Nat.eq_dec i out) as [Hin|Hout]; [exact Hin|exfalso].
+    assert (Hi : i < length E) by (apply nth_error_Some; congruence).
+    destruct (f_stuck _ _ F i Hi Hout) as [j [J1 J2]].
+    assert (Hj : j < length E) by (eapply deps_lt; eauto).
+    destruct (nth_error E j) as [d'|] eqn:Ed'; [|apply nth_error_None in Ed'; lia].
+    pose proof (deps_rank E rank R i j d d' Ed Ed' J1). apply J2. apply (IH j d' Ed'). lia. }
+  assert (Full : forall i, i < length E -> In i out).
+  { intros i Hi. destruct (nth_error E i) as [d|] eqn:Ed; [|apply nth_error_None in Ed; lia].
+    apply (All (S (rank (sname d))) i d Ed). lia. }
+  exists out. split; [exact F|]. split; [|exact Full].
+  destruct Cs as [[_ H]|[L _]]; [exact H|exfalso]. apply L.
+  apply Nat.le_antisymm.
+  - apply nodup_bound; [apply (f_nd _ _ F)|apply (f_lt _ _ F)].
+  - rewrite <- (seq_length (length E) 0). apply NoDup_incl_length; [apply seq_NoDup|].
+    intros i Hi. apply in_seq in Hi. apply Full. lia.
+Qed.
+
+(* ---- the layout loop succeeds when processed in such an order (release arithmetic never fails) *)
+Lemma align_to_false_ok o a : exists r, align_to false o a = Ok r.
+Proof. unfold align_to, add32, sub32. cbn [andb bind]. destruct (1 <=? (o + a) mod W32)%N; cbn [bind]; destruct (1 <=? a)%N; cbn [bind]; eauto. Qed.
+
+Lemma resolved_total m t : (forall nm, field_dep t = Some nm -> rlookup m nm <> None) ->
+  exists r, resolved_layout false m t = Ok r.
+Proof.
+  induction t; intros H; cbn [resolved_layout]; eauto.
+  - cbn in H. destruct (rlookup m name) as [l|] eqn:L; [eauto|]. exfalso. exact (H name eq_refl L).
+  - destruct (IHt H) as [r Hr]. rewrite Hr. cbn [bind]. unfold array_layout, mul32. cbn [andb bind]. eauto.
+Qed.
+
+Lemma fields_total m fs : (forall t nm, In t fs -> field_dep t = Some nm -> rlookup m nm <> None) ->
+  forall e ma, exists r, fields_layout false m fs e ma = Ok r.
+Proof.
+  induction fs as [|t fs IH]; intros H e ma; cbn [fields_layout]; [eauto|].
+  destruct (resolved_total m t (fun nm => H t nm (or_introl eq_refl))) as [fl Hr]. rewrite Hr. cbn [bind].
+  destruct (align_to_false_ok e (snd fl)) as [o Ho]. rewrite Ho. cbn [bind]. unfold add32 at 1. cbn [andb bind].
+  destruct (IH (fun t' nm Ht => H t' nm (or_intror Ht)) ((o + fst fl) mod W32)%N (N.max ma (snd fl))) as [[[offs e'] ma'] Hf].
+  rewrite Hf. cbn [bind]. eauto.
+Qed.
+
+Lemma struct_total m fs : (forall t nm, In t fs -> field_dep t = Some nm -> rlookup m nm <> None) ->
+  exists r, struct_layout false m fs = Ok r.
+Proof.
+  intro H. unfold struct_layout. destruct (fields_total m fs H 0%N 1%N) as [[[offs e] ma] Hf]. rewrite Hf. cbn [bind].
+  destruct (align_to_false_ok e ma) as [sz Hs]. rewrite Hs. cbn [bind]. eauto.
+Qed.
+
+Fixpoint ready (E : list sdef) (done order : list nat) : Prop :=
+  match order with
+  | [] => True
+  | i :: r => (forall d, In d (deps E i) -> In d done) /\ ready E (i :: done) r
+  end.
+
+Lemma topo_app E a b : topo E (a ++ b) -> topo E b.
+Proof. induction a as [|x a IH]; cbn; [auto|]. intros [_ T]. auto. Qed.
+
+Lemma topo_ready E : forall order done, topo E (rev order ++ done) -> ready E done order.
+Proof.
+  induction order as [|i r IH]; intros done T; cbn [ready]; [exact I|].
+  cbn [rev] in T. rewrite <- app_assoc in T. cbn [app] in T. split; [|apply IH; exact T].
+  apply topo_app in T. destruct T as [T _]. exact T.
+Qed.
+
+Lemma set_nth_length {A} (l : list A) i x : length (set_nth l i x) = length l.
+Proof. revert i. induction l as [|a l IH]; intros [|i]; cbn; auto. Qed.
+Lemma nth_error_set_nth_same {A} (l : list A) i x : i < length l -> nth_error (set_nth l i x) i = Some x.
+Proof. revert i. induction l as [|a l IH]; intros [|i] H; cbn in *; try lia; auto. apply IH. lia. Qed.
+Lemma nth_error_set_nth_other {A} (l : list A) i j x : i <> j -> nth_error (set_nth l i x) j = nth_error l j.
+Proof. revert i j. induction l as [|a l IH]; intros [|i] [|j] H; cbn; auto; try lia. Qed.
+
+Definition filled (offs : list (option (list N))) (i : nat) : Prop := exists os, nth_error offs i = Some (Some os).
+
+Lemma lay_total E : wf_env E -> forall order done m offs,
+  ready E done order -> (forall i, In i order -> i < length E) -> length offs = length E ->
+  (forall j d, In j done -> nth_error E j = Some d -> rlookup m (sname d) <> None) ->
+  exists offs' m', lay false E order m offs = Ok (offs', m') /\ length offs' = length E /\
+    (forall i, In i order \/ filled offs i -> filled offs' i) /\
+    (forall j d, In j done \/ In j order -> nth_error E j = Some d -> rlookup m' (sname d) <> None).
+Proof.
+  intros W. pose proof (wf_no_self_ref E W) as SR. pose proof (no_self_ref E SR) as NS.
+  induction order as [|i r IH]; intros done m offs R Lt Len Hm; cbn [lay].
+  - exists offs, m. repeat split; auto. + intros i [[]|H]; exact H. + intros j d [H|[]]; eauto.
+  - destruct R as [R1 R2]. assert (Hi : i < length E) by (apply Lt; left; auto).
+    destruct (nth_error E i) as [d|] eqn:Ed; [|apply nth_error_None in Ed; lia].
+    assert (Hd : In d E) by (eapply nth_error_In; eauto).
+    destruct (struct_total m (sfields d)) as [[[os sz] al] Hs].
+    { intros t nm Ht Hf. assert (Ne : nm <> sname d) by (intro X; apply (NS d t Hd Ht); congruence).
+      destruct (dep_edge E i d t nm Ed Ht Hf Ne (wf_defined _ W d t nm Hd Ht Hf)) as [j [d' [_ [J1 [J2 J3]]]]].
+      rewrite <- J3. apply (Hm j d' (R1 j J1) J2). }
+    rewrite Hs. cbn [bind].
+    destruct (IH (i :: done) ((sname d, (sz, al)) :: m) (set_nth offs i (Some os)) R2) as [offs' [m' [H1 [H2 [H3 H4]]]]].
+    + intros k Hk. apply Lt. right. exact Hk.
+    + rewrite set_nth_length. exact Len.
+    + intros j d' [<-|Hj] Ej; cbn [rlookup].
+      * assert (d' = d) by congruence. subst. rewrite N.eqb_refl. discriminate.
+      * destruct (sname d =? sname d')%N; [discriminate|]. eapply Hm; eauto.
+    + exists offs', m'. repeat split; auto.
+      * intros k [[<-|Hk]|Hk]; apply H3.
+        -- right. exists os. apply nth_error_set_nth_same. lia.
+        -- left. exact Hk.
+        -- destruct (Nat.eq_dec i k) as [<-|Ne]; [right; exists os; apply nth_error_set_nth_same; lia|].
+           right. destruct Hk as [x Hx]. exists x. rewrite nth_error_set_nth_other by exact Ne. exact Hx.
+      * intros j d' Hj Ej. apply (H4 j d'); [|exact Ej]. destruct Hj as [Hj|[<-|Hj]]; [left; right; auto|left; left; auto|right; auto].
+Qed.
+
+(* whole environments: compute_layouts (release arithmetic) returns, fills every struct, and what it
+   returns is the specification (by compute_layouts_sound) *)
+Lemma compute_layouts_total E : wf_env E ->
+  exists offs m, compute_layouts false E = Ok (offs, m) /\
+    forall i d, nth_error E i = Some d ->
+      (exists os, nth_error offs i = Some (Some os)) /\ rlookup m (sname d) <> None.
+Proof.
+  intros W. unfold compute_layouts. rewrite (wf_no_self_ref E W).
+  destruct (wf_order E W) as [out [F [HO Full]]]. rewrite HO. cbn [bind].
+  destruct (lay_total E W (rev out) [] [] (map (fun _ => None) E)) as [offs [m [H1 [H2 [H3 H4]]]]].
+  - apply topo_ready. rewrite rev_involutive, app_nil_r. apply (f_topo _ _ F).
+  - intros i Hi. apply in_rev in Hi. apply (f_lt _ _ F). exact Hi.
+  - apply map_length.
+  - intros j d [].
+  - exists offs, m. split; [exact H1|]. intros i d Ed.
+    assert (Hi : In i (rev out)) by (apply -> in_rev; apply Full; apply nth_error_Some; congruence).
+    split; [apply H3; left; exact Hi|apply (H4 i d); [right; exact Hi|exact Ed]].
+Qed.
+
+(* ------------------------------------------------------------------ part k6 *)
+Local Close Scope nat_scope.
+Local Open Scope N_scope.
+Lemma c_struct_sa_of_c_struct E f i d cos s a : NoDup (map sname E) -> nth_error E i = Some d ->
+  c_struct f E (sfields d) = Some (cos, s, a) -> c_struct_sa (S f) E (sname d) = Some (s, a).
+Proof.
+  intros ND Ed H. rewrite c_struct_sa_unfold. rewrite (find_def_nth E ND i d Ed). unfold c_struct in H.
+  destruct (seq_opt (map (ty_sa (c_struct_sa f E)) (sfields d))) as [ms|]; [|discriminate].
+  inversion H as [H']. rewrite H'. reflexivity.
+Qed.
+
+Lemma c_struct_sa_det E f f' nm v v' : c_struct_sa f E nm = Some v -> c_struct_sa f' E nm = Some v' -> v = v'.
+Proof.
+  intros H H'. apply (c_struct_sa_mono E f (Nat.max f f')) in H; [|lia].
+  apply (c_struct_sa_mono E f' (Nat.max f f')) in H'; [|lia]. congruence.
+Qed.
+
+(* layout_matches_sysv for whole environments (release arithmetic) *)
+Lemma layout_matches_sysv_lemma E : wf_env E ->
+  exists offs m, compute_layouts false E = Ok (offs, m) /\
+    forall i d, nth_error E i = Some d ->
+      exists os f cos s a,
+        nth_error offs i = Some (Some os) /\
+        c_struct f E (sfields d) = Some (cos, s, a) /\
+        os = map (fun o => o mod W32) cos /\ rlookup m (sname d) = Some (s mod W32, a) /\
+        (s < W32 -> os = cos /\ rlookup m (sname d) = Some (s, a)).
+Proof.
+  intros W. destruct (compute_layouts_total E W) as [offs [m [H T]]].
+  exists offs, m. split; [exact H|]. intros i d Ed.
+  destruct (T i d Ed) as [[os Hos] Hm].
+  destruct (compute_layouts_sound false E offs m (wf_names _ W) H) as [S1 S2].
+  destruct (S1 i d os Ed Hos) as [f [cos [s [a [C1 [C2 C3]]]]]].
+  destruct (rlookup m (sname d)) as [[sz al]|] eqn:L; [|congruence].
+  destruct (S2 _ _ _ L) as [f' [s' [D1 [D2 D3]]]].
+  pose proof (c_struct_sa_of_c_struct E f i d cos s a (wf_names _ W) Ed C1) as D4.
+  pose proof (c_struct_sa_det E _ _ _ _ _ D1 D4) as X. inversion X; subst s' al.
+  exists os, f, cos, s, a. repeat split; auto.
+  - rewrite D2. reflexivity.
+  - rewrite D3 by assumption. reflexivity.
+Qed.
+
+(* ---- the specification does not mention the declaration order *)
+Lemma find_def_some_In E nm fs : find_def E nm = Some fs -> In (nm, fs) E.
+Proof.
+  induction E as [|d E IH]; cbn; [discriminate|]. destruct (N.eqb_spec (sname d) nm) as [Eq|Ne].
+  - intro H. inversion H. left. destruct d as [a b]. cbn in *. congruence.
+  - intro H. right. auto.
+Qed.
+Lemma find_def_In E nm fs : NoDup (map sname E) -> In (nm, fs) E -> find_def E nm = Some fs.
+Proof. intros ND H. apply In_nth_error in H as [i Ei]. exact (find_def_nth E ND i (nm, fs) Ei). Qed.
+
+Lemma find_def_perm E E' nm : NoDup (map sname E) -> Permutation E E' -> find_def E nm = find_def E' nm.
+Proof.
+  intros ND P. assert (ND' : NoDup (map sname E')) by (eapply Permutation_NoDup; [apply Permutation_map; exact P|exact ND]).
+  destruct (find_def E nm) as [fs|] eqn:F.
+  - symmetry. apply find_def_In; [exact ND'|]. eapply Permutation_in; [exact P|]. apply find_def_some_In. exact F.
+  - destruct (find_def E' nm) as [fs'|] eqn:F'; [|reflexivity]. exfalso.
+    apply find_def_some_In in F'. apply (Permutation_in _ (Permutation_sym P)) in F'.
+    rewrite (find_def_In E nm fs' ND F') in F. discriminate.
+Qed.
+
+Lemma ty_sa_cong (sl sl' : N -> option (N * N)) t : (forall nm, sl nm = sl' nm) -> ty_sa sl t = ty_sa sl' t.
+Proof. intro H. induction t; cbn [ty_sa]; auto. rewrite IHt. reflexivity. Qed.
+
+Lemma c_struct_sa_perm E E' : NoDup (map sname E) -> Permutation E E' ->
+  forall f nm, c_struct_sa f E nm = c_struct_sa f E' nm.
+Proof.
+  intros ND P. induction f as [|f IH]; intro nm; [reflexivity|].
+  rewrite !c_struct_sa_unfold. rewrite <- (find_def_perm E E' nm ND P).
+  destruct (find_def E nm) as [fs|]; [|reflexivity].
+  rewrite (map_ext _ _ (fun t => ty_sa_cong _ _ t IH)). reflexivity.
+Qed.
+Lemma c_struct_perm E E' f fs : NoDup (map sname E) -> Permutation E E' -> c_struct f E fs = c_struct f E' fs.
+Proof.
+  intros ND P. unfold c_struct. rewrite (map_ext _ _ (fun t => ty_sa_cong _ _ t (c_struct_sa_perm E E' ND P f))). reflexivity.
+Qed.
+
+Lemma wf_env_perm E E' : wf_env E -> Permutation E E' -> wf_env E'.
+Proof.
+  intros [W1 W2 [rank W3]] P. pose proof (Permutation_sym P) as P'. constructor.
+  - eapply Permutation_NoDup; [apply Permutation_map; exact P|exact W1].
+  - intros d t nm Hd Ht Hf. eapply Permutation_in; [apply Permutation_map; exact P|].
+    eapply W2; eauto. eapply Permutation_in; eauto.
+  - exists rank. intros d t nm Hd. apply W3. eapply Permutation_in; eauto.
+Qed.
+
+(* layout_order_independent: the same definitions in any two declaration orders get the same
+   offsets, sizes and alignments (no size guard: also the wrapped values coincide) *)
+Lemma layout_order_independent_lemma E E' : wf_env E -> Permutation E E' ->
+  exists offs m offs' m',
+    compute_layouts false E = Ok (offs, m) /\ compute_layouts false E' = Ok (offs', m') /\
+    forall i i' d, nth_error E i = Some d -> nth_error E' i' = Some d ->
+      nth_error offs i = nth_error offs' i' /\ rlookup m (sname d) = rlookup m' (sname d).
+Proof.
+  intros W P. pose proof (wf_env_perm E E' W P) as W'.
+  destruct (layout_matches_sysv_lemma E W) as [offs [m [H S]]].
+  destruct (layout_matches_sysv_lemma E' W') as [offs' [m' [H' S']]].
+  exists offs, m, offs', m'. repeat split; auto.
+  - destruct (S i d H0) as [os [f [cos [s [a [A1 [A2 [A3 [A4 _]]]]]]]]].
+    destruct (S' i' d H1) as [os' [f' [cos' [s' [a' [B1 [B2 [B3 [B4 _]]]]]]]]].
+    rewrite <- (c_struct_perm E E' f' _ (wf_names _ W) P) in B2.
+    pose proof (c_struct_det E _ _ _ _ _ A2 B2) as X. inversion X; subst. congruence.
+  - destruct (S i d H0) as [os [f [cos [s [a [A1 [A2 [A3 [A4 _]]]]]]]]].
+    destruct (S' i' d H1) as [os' [f' [cos' [s' [a' [B1 [B2 [B3 [B4 _]]]]]]]]].
+    rewrite <- (c_struct_perm E E' f' _ (wf_names _ W) P) in B2.
+    pose proof (c_struct_det E _ _ _ _ _ A2 B2) as X. inversion X; subst. congruence.
+Qed.
+
+
+Lemma topological_order_outcomes E :
+  (exists order, topological_order E = Ok order) \/ topological_order E = Fail ECycle.
+Proof. destruct (topological_order_cases E) as [out [_ [[_ H]|[_ H]]]]; eauto. Qed.
+
+Lemma layout_checked_partial_lemma E offs m : wf_env E ->
+  compute_layouts true E = Ok (offs, m) ->
+  forall i d, nth_error E i = Some d ->
+    exists os f cos s a,
+      nth_error offs i = Some (Some os) /\ c_struct f E (sfields d) = Some (cos, s, a) /\
+      os = map (fun o => o mod W32) cos /\ (s < W32 -> os = cos /\ rlookup m (sname d) = Some (s, a)).
+Proof.
+  intros W H i d Ed. apply compute_layouts_chk in H.
+  destruct (layout_matches_sysv_lemma E W) as [offs' [m' [H' S]]].
+  rewrite H in H'. inversion H'; subst offs' m'.
+  destruct (S i d Ed) as [os [f [cos [s [a [A1 [A2 [A3 [A4 A5]]]]]]]]].
+  exists os, f, cos, s, a. auto.
+Qed.
+
+Definition example_env : list sdef :=
+  [(2, [TPrim PU8; TArray (TStruct 1) 3; TPrim PU8; TPtr (TStruct 2)]);
+   (1, [TPrim PI8; TPrim PI32; TPrim PI16])].
+Lemma example_wf : wf_env example_env.
+Proof.
+  constructor.
+  - repeat constructor; cbn; intuition discriminate.
+  - intros d t nm [<-|[<-|[]]] Ht Hf; cbn in Ht; intuition; subst; cbn in Hf; try discriminate;
+      inversion Hf; subst; cbn; auto.
+  - exists N.to_nat. intros d t nm [<-|[<-|[]]] Ht Hf; cbn in Ht; intuition; subst; cbn in Hf; try discriminate;
+      inversion Hf; subst; cbn; lia.
+Qed.
+Lemma example_cycle : byvalue_cycle [(1, [TStruct 2]); (2, [TArray (TStruct 1) 0])].
+Proof.
+  exists (fun nm => nm = 1 \/ nm = 2). split; [exists 1; auto|].
+  intros nm [->| ->].
+  - exists (1, [TStruct 2]), (TStruct 2), 2. cbn. intuition.
+  - exists (2, [TArray (TStruct 1) 0]), (TArray (TStruct 1) 0), 1. cbn. intuition.
+Qed.
